@@ -21,7 +21,12 @@ ENGINES = [
 def main():
     checks = []
     na = []
+    with open(os.path.join(VERIF, "mc", "claimed.txt")) as f:
+        claimed = set(f.read().split())
     for pid in ALL:
+        if pid not in claimed:
+            na.append({"property_id": pid, "reason": "check not finished yet (work in progress; design in DESIGN.md section 6)"})
+            continue
         try:
             m = importlib.import_module("mc.checks.%s" % pid.lower())
         except ImportError:
